@@ -29,6 +29,10 @@
   * `aba_crisp`          : all branches combined, with existence of the result.
   * `theta2_spec`        : in the general branch `sin(θ2/2) = sin(α/2)·√(b²+c²)` — justifies phrasing the
                            crisp hypothesis of the inner test on the inputs.
+  * `aba_upper_edge_wrong`: FINDING — at `α = π + atol` (admitted by the code's closed range test, not caught by
+                           the strict `α ≈ π` test) the returned angles compose to neither `+` nor `-` the
+                           requested rotation (non-degenerate case), so `α < π + atol` above is necessary.
+                           Unreachable through `normalizeAngle` (range `[-π+atol, π+atol)`).
   followed by `example`s on every branch (incl. `n = (-1,-1,1)/√3, α = 1`, ZXZ).
 -/
 import OSq.Model.Passes
@@ -249,17 +253,22 @@ theorem theta2_spec {a b c α : ℝ} (hn : a^2 + b^2 + c^2 = 1) (hα : -π < α)
   · have : s < 0 := sin_neg_of_neg_of_neg_pi_lt (by linarith) (by linarith)
     rw [abs_of_neg this]; ring
 
-/-- `p` of the general branch -/
-theorem p_spec (a : ℝ) {α : ℝ} (hα : -π < α) (hα' : α < π) :
+/-- `p` of the general branch (only `cos(α/2) ≠ 0` is needed) -/
+theorem p_spec' (a : ℝ) {α : ℝ} (hk : cos (α / 2) ≠ 0) :
     √(cos (α / 2)^2 + (a * sin (α / 2))^2) * cos (2 * atan2 (a * sin (α / 2)) (cos (α / 2)) / 2)
       = cos (α / 2) ∧
     √(cos (α / 2)^2 + (a * sin (α / 2))^2) * sin (2 * atan2 (a * sin (α / 2)) (cos (α / 2)) / 2)
       = a * sin (α / 2) := by
-  have hkpos : 0 < cos (α / 2) := cos_pos_of_mem_Ioo ⟨by linarith, by linarith⟩
   have hRpos : 0 < √(cos (α / 2)^2 + (a * sin (α / 2))^2) := Real.sqrt_pos.mpr (by positivity)
-  rw [mul_div_cancel_left₀ _ (two_ne_zero), cos_atan2 hkpos.ne', sin_atan2]
+  rw [mul_div_cancel_left₀ _ (two_ne_zero), cos_atan2 hk, sin_atan2]
   constructor <;> field_simp
 
+theorem p_spec (a : ℝ) {α : ℝ} (hα : -π < α) (hα' : α < π) :
+    √(cos (α / 2)^2 + (a * sin (α / 2))^2) * cos (2 * atan2 (a * sin (α / 2)) (cos (α / 2)) / 2)
+      = cos (α / 2) ∧
+    √(cos (α / 2)^2 + (a * sin (α / 2))^2) * sin (2 * atan2 (a * sin (α / 2)) (cos (α / 2)) / 2)
+      = a * sin (α / 2) :=
+  p_spec' a (cos_pos_of_mem_Ioo ⟨by linarith, by linarith⟩).ne'
 
 theorem ptm_general {atol a b c α : ℝ} (hat : 0 < atol) (hn : a^2 + b^2 + c^2 = 1)
     (hα : -π < α) (hα' : α < π) (hnp : ¬ |α - π| < atol)
@@ -372,23 +381,32 @@ theorem ptm_pi {atol a b c : ℝ} (hat : 0 < atol) (hn : a^2 + b^2 + c^2 = 1)
     simp only [e, sin_arccos, cos_arccos ha1.1 ha1.2, e1, cos_pi_div_two,
       sin_pi_div_two, mul_zero, mul_one, hm1, hm2, and_self]
 
+/-- components of the product in terms of `p = θ1 + θ3` and the code's `m` (before the handedness flip) -/
+theorem abaProduct_pm (k : ABAKind) (p θ2 m θ1 θ3 : ℝ)
+    (e1 : θ1 + θ3 = p) (e2 : θ1 - θ3 = if k.sinMNeg then -m else m) :
+    (abaProduct k θ1 θ2 θ3).w = cos (θ2 / 2) * cos (p / 2) ∧
+    Vec3.get ((abaProduct k θ1 θ2 θ3).x, (abaProduct k θ1 θ2 θ3).y, (abaProduct k θ1 θ2 θ3).z) k.ia
+      = cos (θ2 / 2) * sin (p / 2) ∧
+    Vec3.get ((abaProduct k θ1 θ2 θ3).x, (abaProduct k θ1 θ2 θ3).y, (abaProduct k θ1 θ2 θ3).z) k.ib
+      = sin (θ2 / 2) * cos (m / 2) ∧
+    Vec3.get ((abaProduct k θ1 θ2 θ3).x, (abaProduct k θ1 θ2 θ3).y, (abaProduct k θ1 θ2 θ3).z) k.ic
+      = sin (θ2 / 2) * sin (m / 2) := by
+  obtain ⟨c1, c2, c3, c4⟩ := abaProduct_components k θ1 θ2 θ3
+  rw [e1] at c1 c2
+  rw [e2] at c3 c4
+  refine ⟨c1, c2, ?_, ?_⟩
+  · rw [c3]; split_ifs <;> simp [neg_div]
+  · rw [c4]; unfold hand; split_ifs <;> simp [neg_div]
+
 theorem product_of_good (k : ABAKind) (n : ℝ × ℝ × ℝ) (α p θ2 m θ1 θ3 : ℝ)
     (h : Good (Vec3.get n k.ia) (Vec3.get n k.ib) (Vec3.get n k.ic) α (p, θ2, m))
     (e1 : θ1 + θ3 = p) (e2 : θ1 - θ3 = if k.sinMNeg then -m else m) :
     abaProduct k θ1 θ2 θ3 = Q.ofRot n α := by
   obtain ⟨g1, g2, g3, g4⟩ := h
   dsimp only at g1 g2 g3 g4
-  obtain ⟨c1, c2, c3, c4⟩ := abaProduct_components k θ1 θ2 θ3
-  rw [e1] at c1 c2
-  rw [e2] at c3 c4
-  have c3' : Vec3.get ((abaProduct k θ1 θ2 θ3).x, (abaProduct k θ1 θ2 θ3).y, (abaProduct k θ1 θ2 θ3).z) k.ib
-      = sin (θ2 / 2) * cos (m / 2) := by
-    rw [c3]; split_ifs <;> simp [neg_div]
-  have c4' : Vec3.get ((abaProduct k θ1 θ2 θ3).x, (abaProduct k θ1 θ2 θ3).y, (abaProduct k θ1 θ2 θ3).z) k.ic
-      = sin (θ2 / 2) * sin (m / 2) := by
-    rw [c4]; unfold hand; split_ifs <;> simp [neg_div]
+  obtain ⟨c1, c2, c3', c4'⟩ := abaProduct_pm k p θ2 m θ1 θ3 e1 e2
   rw [g1] at c1; rw [g2] at c2; rw [g3] at c3'; rw [g4] at c4'
-  clear c3 c4 g1 g2 g3 g4 e1 e2
+  clear g1 g2 g3 g4 e1 e2
   cases k <;> simp only [ABAKind.ia, ABAKind.ib, ABAKind.ic, Vec3.get, Nat.reduceSub, Nat.sub_zero] at c1 c2 c3' c4' ⊢ <;>
     ext <;> simp only [Q.ofRot] <;> linarith
 
@@ -526,6 +544,155 @@ theorem aba_crisp (atol : ℝ) (k : ABAKind) (α : ℝ) (n : ℝ × ℝ × ℝ)
     simpa [sin_pi_div_two] using this
   · exact aba_general_sign atol k α n θ1 θ2 θ3 hat hn h1 h2 hp (hcs (fun hh => hp hh.1)) h
 
+/-! ### 3b. Finding: the closed upper end `α = π + atol` of the code's range test
+
+The range test admits `α = π + atol`, and the `α ≈ π` test (`|α - π| < atol`, strict) does not fire there,
+so the general branch runs with `cos(α/2) < 0`.  Its formulas then produce the rotation with scalar part and
+`ia`-component *negated*, which is neither `+` nor `-` the requested rotation (unless `sin(θ2/2) = 0`).
+`normalizeAngle` never returns `π + atol` (its range is `[-π+atol, π+atol)`), so the point is unreachable
+through normalised angles; it only shows that the hypothesis `α < π + atol` of `aba_general_sign`
+cannot be weakened to the `≤` of the code's range test. -/
+
+theorem theta2_edge {a b c α : ℝ} (hn : a^2 + b^2 + c^2 = 1) (hα : π < α) (hα' : α < 2 * π) :
+    cos (csgn (2 * arccos (clamp (cos (α / 2) * √(1 + a * tan (α / 2) * (a * tan (α / 2)))))) α / 2)
+      = -√(cos (α / 2)^2 + (a * sin (α / 2))^2) ∧
+    sin (csgn (2 * arccos (clamp (cos (α / 2) * √(1 + a * tan (α / 2) * (a * tan (α / 2)))))) α / 2)
+      = sin (α / 2) * √(b^2 + c^2) := by
+  set s := sin (α/2) with hs
+  set k := cos (α/2) with hk
+  have hkneg : k < 0 := cos_neg_of_pi_div_two_lt_of_lt (by linarith) (by linarith)
+  have hk0 : k ≠ 0 := hkneg.ne
+  have hspos : 0 < s := sin_pos_of_pos_of_lt_pi (by linarith [Real.pi_pos]) (by linarith)
+  have hsk : s^2 + k^2 = 1 := sin_sq_add_cos_sq (α/2)
+  set R := √(k^2 + (a*s)^2) with hR
+  have hRpos : 0 < R := Real.sqrt_pos.mpr (by positivity)
+  have hRsq : R^2 = k^2 + (a*s)^2 := Real.sq_sqrt (by positivity)
+  have hr : k * √(1 + a * tan (α / 2) * (a * tan (α / 2))) = -R := by
+    rw [tan_eq_sin_div_cos, ← hs, ← hk]
+    have : (1 + a * (s / k) * (a * (s / k))) = (k^2 + (a*s)^2) / (-k)^2 := by
+      have hk0 : k ≠ 0 := hkneg.ne
+      field_simp
+    rw [this, Real.sqrt_div (by positivity), Real.sqrt_sq (by linarith), hR]
+    have hk0 : k ≠ 0 := hkneg.ne
+    field_simp
+  have hRle : R ≤ 1 := by
+    have h0 : 0 ≤ s^2 * (b^2 + c^2) := by positivity
+    have : R^2 ≤ 1 := by
+      rw [hRsq]; nlinarith
+    nlinarith
+  set ρ := √(b^2 + c^2) with hρ
+  have hρ0 : 0 ≤ ρ := Real.sqrt_nonneg _
+  have hρsq : ρ^2 = b^2 + c^2 := Real.sq_sqrt (by positivity)
+  have h1R : √(1 - (-R)^2) = s * ρ := by
+    have : 1 - (-R)^2 = (s * ρ)^2 := by
+      rw [mul_pow, hρsq, neg_sq, hRsq]; nlinarith
+    rw [this, Real.sqrt_sq (by positivity)]
+  rw [hr, clamp_of_mem (by linarith) (by linarith), cos_csgn_arccos (by linarith) (by linarith),
+    sin_csgn_arccos, h1R, if_pos (by linarith [Real.pi_pos])]
+  exact ⟨rfl, rfl⟩
+
+/-- at `α = π + atol` the general branch yields scalar part and `ia`-component with the wrong sign -/
+theorem ptm_edge {atol a b c : ℝ} (hat : 0 < atol) (hat' : atol < π) (hn : a^2 + b^2 + c^2 = 1)
+    (hnd : atol^2 ≤ sin ((π + atol) / 2)^2 * (b^2 + c^2)) :
+    Good a (-b) (-c) (π + atol - 2 * π) (ptm atol a b c (π + atol)) := by
+  have hα : π < π + atol := by linarith
+  have hα' : π + atol < 2 * π := by linarith
+  obtain ⟨hc2, hs2⟩ := theta2_edge hn hα hα'
+  have hkneg : cos ((π + atol) / 2) < 0 := cos_neg_of_pi_div_two_lt_of_lt (by linarith) (by linarith)
+  obtain ⟨hpc, hps⟩ := p_spec' a hkneg.ne
+  have hnp : ¬ |π + atol - π| < atol := by
+    rw [add_sub_cancel_left, abs_of_pos hat]; exact lt_irrefl _
+  have ec : cos ((π + atol - 2 * π) / 2) = -cos ((π + atol) / 2) := by
+    rw [show (π + atol - 2 * π) / 2 = (π + atol) / 2 - π by ring, cos_sub_pi]
+  have es : sin ((π + atol - 2 * π) / 2) = -sin ((π + atol) / 2) := by
+    rw [show (π + atol - 2 * π) / 2 = (π + atol) / 2 - π by ring, sin_sub_pi]
+  unfold ptm
+  rw [if_neg hnp]
+  dsimp only
+  unfold Good
+  rw [ec, es]
+  set α := π + atol
+  set θ2 := csgn (2 * arccos (clamp (cos (α / 2) * √(1 + a * tan (α / 2) * (a * tan (α / 2)))))) α
+  set p := 2 * atan2 (a * sin (α / 2)) (cos (α / 2))
+  set s := sin (α / 2)
+  set k := cos (α / 2)
+  set R := √(k^2 + (a * s)^2)
+  set ρ := √(b^2 + c^2) with hρ
+  have hρ0 : 0 ≤ ρ := Real.sqrt_nonneg _
+  have hρsq : ρ^2 = b^2 + c^2 := Real.sq_sqrt (by positivity)
+  rw [hs2]
+  have hsρ : atol ≤ |s * ρ| := by
+    have : atol^2 ≤ |s * ρ|^2 := by rw [sq_abs, mul_pow, hρsq]; exact hnd
+    exact (abs_le_of_sq_le_sq' this (abs_nonneg _)).2
+  rw [if_neg (not_lt.mpr hsρ)]
+  have hsρ0 : s * ρ ≠ 0 := by
+    intro h0; rw [h0, abs_zero] at hsρ; linarith
+  have hs0 : s ≠ 0 := left_ne_zero_of_mul hsρ0
+  have hρpos : 0 < ρ := lt_of_le_of_ne hρ0 (Ne.symm (right_ne_zero_of_mul hsρ0))
+  have e : b * s / (s * ρ) = b / ρ := by field_simp
+  rw [e]
+  obtain ⟨hm1, hm2⟩ := m_spec hρpos hρsq
+  refine ⟨?_, ?_, ?_, ?_⟩
+  · show cos (θ2 / 2) * cos (p / 2) = -k
+    rw [hc2, neg_mul, hpc]
+  · show cos (θ2 / 2) * sin (p / 2) = a * -s
+    rw [hc2, neg_mul, hps]; ring
+  · show sin (θ2 / 2) * cos (_ / 2) = -b * -s
+    rw [hs2, mul_assoc, hm1]; ring
+  · show sin (θ2 / 2) * sin (_ / 2) = -c * -s
+    rw [hs2, mul_assoc, hm2]; ring
+
+theorem Q.ofRot_get (n : ℝ × ℝ × ℝ) (α : ℝ) (i : Nat) :
+    Vec3.get ((Q.ofRot n α).x, (Q.ofRot n α).y, (Q.ofRot n α).z) i = sin (α / 2) * Vec3.get n i := by
+  unfold Vec3.get; split <;> rfl
+
+theorem Q.neg_get (q : Q) (i : Nat) :
+    Vec3.get ((-q).x, (-q).y, (-q).z) i = -Vec3.get (q.x, q.y, q.z) i := by
+  unfold Vec3.get; split <;> rfl
+
+/-- **aba_upper_edge_wrong** (finding).  At `α = π + atol` (accepted by the range test, not caught by the
+`α ≈ π` test) with a non-degenerate inner test, the angles returned by `abaAngles` compose to a rotation that
+is neither `+` nor `-` the requested one — for every kind and every unit axis. -/
+theorem aba_upper_edge_wrong (atol : ℝ) (k : ABAKind) (n : ℝ × ℝ × ℝ) (θ1 θ2 θ3 : ℝ)
+    (hat : 0 < atol) (hat' : atol < π) (hn : n.1^2 + n.2.1^2 + n.2.2^2 = 1)
+    (hnd : atol^2 ≤ sin ((π + atol) / 2)^2 * ((Vec3.get n k.ib)^2 + (Vec3.get n k.ic)^2))
+    (h : abaAngles atol k (π + atol) n = .ok (θ1, θ2, θ3)) :
+    abaProduct k θ1 θ2 θ3 ≠ Q.ofRot n (π + atol) ∧ abaProduct k θ1 θ2 θ3 ≠ -(Q.ofRot n (π + atol)) := by
+  rw [abaAngles_unit atol k (π + atol) n hn (by linarith [Real.pi_pos]) le_rfl] at h
+  obtain ⟨g1, g2, g3, g4⟩ := ptm_edge hat hat' (unit_abc k hn) hnd
+  set t := ptm atol (Vec3.get n k.ia) (Vec3.get n k.ib) (Vec3.get n k.ic) (π + atol)
+  injection h with h
+  have hθ1 : θ1 = (finish k t).1 := by rw [h]
+  have hθ2 : θ2 = (finish k t).2.1 := by rw [h]
+  have hθ3 : θ3 = (finish k t).2.2 := by rw [h]
+  obtain ⟨c1, c2, c3, c4⟩ := abaProduct_pm k t.1 θ2 t.2.2 θ1 θ3
+    (by rw [hθ1, hθ3]; simp only [finish]; ring) (by rw [hθ1, hθ3]; simp only [finish]; ring)
+  have hθ2' : θ2 = t.2.1 := hθ2
+  rw [hθ2'] at c1 c2 c3 c4
+  rw [g1] at c1; rw [g3] at c3; rw [g4] at c4
+  have ec : cos ((π + atol - 2 * π) / 2) = -cos ((π + atol) / 2) := by
+    rw [show (π + atol - 2 * π) / 2 = (π + atol) / 2 - π by ring, cos_sub_pi]
+  have es : sin ((π + atol - 2 * π) / 2) = -sin ((π + atol) / 2) := by
+    rw [show (π + atol - 2 * π) / 2 = (π + atol) / 2 - π by ring, sin_sub_pi]
+  rw [ec] at c1; rw [es] at c3 c4
+  have hkneg : cos ((π + atol) / 2) < 0 := cos_neg_of_pi_div_two_lt_of_lt (by linarith) (by linarith)
+  rw [← hθ2'] at c1 c3 c4
+  constructor
+  · intro heq
+    rw [heq] at c1
+    have : cos ((π + atol) / 2) = -cos ((π + atol) / 2) := c1
+    linarith
+  · intro heq
+    rw [heq, Q.neg_get, Q.ofRot_get] at c3 c4
+    have hb : sin ((π + atol) / 2) * Vec3.get n k.ib = 0 := by linarith
+    have hc : sin ((π + atol) / 2) * Vec3.get n k.ic = 0 := by linarith
+    have : sin ((π + atol) / 2)^2 * ((Vec3.get n k.ib)^2 + (Vec3.get n k.ic)^2) = 0 := by
+      have e : sin ((π + atol) / 2)^2 * ((Vec3.get n k.ib)^2 + (Vec3.get n k.ic)^2)
+          = (sin ((π + atol) / 2) * Vec3.get n k.ib)^2 + (sin ((π + atol) / 2) * Vec3.get n k.ic)^2 := by ring
+      rw [e, hb, hc]; norm_num
+    rw [this] at hnd
+    nlinarith
+
 /-! ### 4. Non-vacuity: each theorem instantiated on each branch -/
 
 /-- general branch, generic point: `n = (-1,-1,1)/√3`, `α = 1`, ZXZ — the input on which the unrepaired
@@ -616,6 +783,45 @@ example : ∃ θ1 θ2 θ3, abaAngles (1/10^7) .XYX (-1) (2/3, -1/3, -2/3) = .ok 
   rw [e, sin_neg, neg_sq] at hlt
   nlinarith
 
+/-- `aba_crisp` at the closed lower end `α = -π + atol` of the range (which `normalizeAngle` can return),
+XZX, generic axis. -/
+example : ∃ θ1 θ2 θ3, abaAngles (1/10^7) .XZX (-π + 1/10^7) (2/3, -1/3, -2/3) = .ok (θ1, θ2, θ3) ∧
+    abaProduct .XZX θ1 θ2 θ3 = Q.ofRot (2/3, -1/3, -2/3) (-π + 1/10^7) := by
+  have hn : (2/3 : ℝ)^2 + (-1/3 : ℝ)^2 + (-2/3 : ℝ)^2 = 1 := by norm_num
+  have hp := Real.two_le_pi
+  have hnp : ¬ |(-π + 1/10^7 : ℝ) - π| < 1/10^7 := by
+    rw [abs_of_neg (by linarith)]; intro h; linarith
+  refine aba_crisp _ _ _ _ (by norm_num) hn le_rfl (by linarith) (fun h => absurd h hnp)
+    (fun h => absurd h hnp) ?_
+  intro _ hlt; exfalso
+  have e : (-π + 1/10^7 : ℝ) / 2 = (1/10^7) / 2 - π / 2 := by ring
+  rw [e, sin_sub_pi_div_two, neg_sq] at hlt
+  have hc := Real.one_sub_sq_div_two_le_cos (x := (1/10^7 : ℝ) / 2)
+  have hc' : (1/2 : ℝ) ≤ cos ((1/10^7) / 2) := by
+    refine le_trans ?_ hc; norm_num
+  have hc2 : (1/2 : ℝ)^2 ≤ cos ((1/10^7) / 2)^2 := pow_le_pow_left₀ (by norm_num) hc' 2
+  simp only [ABAKind.ib, ABAKind.ic, ABAKind.ia, Vec3.get, Nat.reduceSub, Nat.sub_zero] at hlt
+  nlinarith
+
+/-- `aba_upper_edge_wrong` is not vacuous: ZYZ at `α = π + atol` on a generic axis returns angles, and they
+are wrong. -/
+example : ∃ θ1 θ2 θ3, abaAngles (1/10^7) .ZYZ (π + 1/10^7) (2/3, -1/3, -2/3) = .ok (θ1, θ2, θ3) ∧
+    abaProduct .ZYZ θ1 θ2 θ3 ≠ Q.ofRot (2/3, -1/3, -2/3) (π + 1/10^7) ∧
+    abaProduct .ZYZ θ1 θ2 θ3 ≠ -(Q.ofRot (2/3, -1/3, -2/3) (π + 1/10^7)) := by
+  have hn : (2/3 : ℝ)^2 + (-1/3 : ℝ)^2 + (-2/3 : ℝ)^2 = 1 := by norm_num
+  have hp := Real.two_le_pi
+  obtain ⟨⟨θ1, θ2, θ3⟩, h⟩ :=
+    aba_total (1/10^7) .ZYZ (π + 1/10^7) (2/3, -1/3, -2/3) hn (by linarith) le_rfl
+  refine ⟨θ1, θ2, θ3, h, aba_upper_edge_wrong _ _ _ _ _ _ (by norm_num) (by linarith) hn ?_ h⟩
+  have e : (π + 1/10^7 : ℝ) / 2 = (1/10^7) / 2 + π / 2 := by ring
+  rw [e, sin_add_pi_div_two]
+  have hc := Real.one_sub_sq_div_two_le_cos (x := (1/10^7 : ℝ) / 2)
+  have hc' : (1/2 : ℝ) ≤ cos ((1/10^7) / 2) := by
+    refine le_trans ?_ hc; norm_num
+  have hc2 : (1/2 : ℝ)^2 ≤ cos ((1/10^7) / 2)^2 := pow_le_pow_left₀ (by norm_num) hc' 2
+  simp only [ABAKind.ib, ABAKind.ic, ABAKind.ia, Vec3.get, Nat.reduceSub]
+  nlinarith
+
 end OSq.ABA
 
 #print axioms OSq.ABA.abaProduct_components
@@ -625,3 +831,4 @@ end OSq.ABA
 #print axioms OSq.ABA.aba_pi_sign
 #print axioms OSq.ABA.aba_pi_crisp
 #print axioms OSq.ABA.aba_crisp
+#print axioms OSq.ABA.aba_upper_edge_wrong
